@@ -43,8 +43,56 @@ def build(case):
     return net.build(), (oh, ow)
 
 
+def build_dilated(case):
+    """[h, w, c, oc, kh, kw, dh, dw, uint8, depthwise]: one SAME convolution with these dilation factors"""
+    h, w, c, oc, kh, kw, dh, dw, u8, dwise = case
+    rng = random.Random(str(case))
+    net = netgen.Net("dil")
+    dt = "uint8" if u8 else "int8"
+    x = net.input([1, h, w, c], dt, 0.05, 3 if not u8 else 120)
+    if dwise:
+        y = netgen.depthwise(net, rng, x, (kh, kw), (1, 1), (dh, dw), "SAME")
+    else:
+        y = netgen.conv2d(net, rng, x, oc, (kh, kw), (1, 1), (dh, dw), "SAME")
+    net.output(y)
+    return net.build()
+
+
+def main_dilation(cases):
+    """the kernel fixup_dilation_gt2 writes: per case [hw_dil_h, hw_dil_w, new_h, new_w, plane of (in 0, out 0) row major],
+    preceded by what went in: [fill (weights' zero point), original plane row major]"""
+    from ethosu.vela import model_reader
+    from ethosu.vela.architecture_features import Accelerator, create_default_arch
+    from ethosu.vela.tflite_graph_optimiser import fixup_dilation_gt2
+    arch = create_default_arch(Accelerator.Ethos_U55_128)
+    out = []
+    tmp = tempfile.mkdtemp(prefix="rw_", dir=os.environ.get("VERIF_TMP"))
+    for i, case in enumerate(cases):
+        path = os.path.join(tmp, "d%d.tflite" % i)
+        open(path, "wb").write(build_dilated(case))
+        nng, _ = model_reader.read_model(path, model_reader.ModelReaderOptions())
+        os.remove(path)
+        op = [o for o in nng.subgraphs[0].get_all_ops() if o.type.is_conv2d_op() or o.type.is_depthwise_conv2d_op()][0]
+        op.run_on_npu = True
+        zp = op.weights.quantization.zero_point
+        import numpy as np
+        fill = int(np.asarray(zp).reshape(-1)[0])
+        before = [int(v) for v in np.asarray(op.weights.values)[:, :, 0, 0].reshape(-1)]
+        res = fixup_dilation_gt2(op, arch, nng)
+        wv = np.asarray(res.weights.values)
+        dil = res.attrs.get("dilation")
+        out.append({"fill": fill, "before": before,
+                    "after": [int(dil[1]), int(dil[2]), int(wv.shape[0]), int(wv.shape[1])] + [int(v) for v in wv[:, :, 0, 0].reshape(-1)],
+                    "weights_shape": [int(v) for v in res.weights.shape]})
+    os.rmdir(tmp)
+    return out
+
+
 def main():
     cases = json.load(open(sys.argv[1]))
+    if len(sys.argv) > 3 and sys.argv[3] == "dilation":
+        json.dump(main_dilation(cases), open(sys.argv[2], "w"))
+        return
     from ethosu.vela import model_reader
     from ethosu.vela.architecture_features import Accelerator, create_default_arch
     from ethosu.vela.operation import Op, Padding
